@@ -6,6 +6,27 @@ ALL = ["C%02d" % i for i in range(1, 21)]
 
 # id -> dict(level, text, note, technique, design_ref, engine)
 CHECKS = {
+ "C01": dict(level="translation_validation", engine="E3 enum + cyref/pgeval",
+   text="Translation validation over a completely enumerated bounded space: every query text built from <= 2 (quick) / <= 3 (thorough) features of a feature grammar over the "
+        "supported read fragment (5.4k / 166k texts, parsed by the real parser) is translated by the real translator and its pgsql AST is evaluated by pgeval on every "
+        "property graph of the query's sliced domain (<= 2 nodes, <= 2 edges quick; <= 3/3 thorough; self loops, parallel edges, kind-less nodes, missing and mixed-type "
+        "properties) and compared with the reference openCypher evaluator cyref (bag equality; sequence where ORDER BY is total; block-wise with ties; sub-bag for SKIP/LIMIT). "
+        "Both models are bound to real backends at the start of every run by replaying the project's integration corpus (expectations recorded against live PostgreSQL and Neo4j). "
+        "A disagreement is attributed to a known finding only if cyref reproduces the SQL rows exactly with that known deviation switched on.",
+   note="There is no PostgreSQL in the sandbox: pgeval (interpreter of the emitted pgsql AST, 387 corpus expectations reproduced, 0 mismatches) and cyref (375 reproduced, 0 mismatches) "
+        "are the trusted base; statements pgeval does not model (shortest-path harnesses, temporal, regex outside a common subset, collation-dependent ordering) are counted as outside, "
+        "never judged. SQL run-time errors count as 'rejected with an error'. Graph bounds and the sliced attribute domains are stated in the evidence.",
+   technique="bounded exhaustive translation validation (query texts x graphs) against a reference evaluator; models conformance-checked against recorded real-backend results",
+   design_ref="4/C01, 10.4"),
+ "C02": dict(level="translation_validation", engine="E3 enum + pgeval/cyref",
+   text="For every enumerated query (as C01, plus seeds that trigger the AST rewrite rules and the lowerings the grammar does not reach) the SQL of the production translation "
+        "(all optimisations) and of the unoptimised translation (a Translator that never receives a plan; reached through a verif-tagged overlay hook) are evaluated by pgeval "
+        "on every graph of the query's domain and must return the same bag (cardinality only where SKIP/LIMIT cuts an order that is not total); where the optimiser rewrites the "
+        "Cypher, the rewritten query is compared with the original by cyref. Single-lowering configurations are evaluated too but only as diagnostics.",
+   note="Same trusted base as C01. A difference is attributed to a known finding only if both SQL results are reproduced exactly by cyref with known C01 deviations switched on and the "
+        "deviation sets differ (the optimisation removes or introduces a known translation defect). Hybrid configurations (one lowering removed) are not deciders: a lowering may rely on another.",
+   technique="bounded exhaustive differential translation validation (optimised vs unoptimised SQL on all enumerated graphs)",
+   design_ref="4/C02, 10.4"),
  "C12": dict(level="model_checking", engine="E2 bfs",
    text="Explicit-state breadth-first search over every edit history (Set/SetAll/Delete/GetOrDefault/Clone/Merge, AddKinds/DeleteKinds/Merge) "
         "on two real tracked entities from every loaded state over keys {a,b} and kinds {K1,K2}, for bare Properties, Relationship and Node; "
@@ -47,6 +68,31 @@ CHECKS = {
         "are not yet covered by this check.",
    technique="stateless model checking of the implementation (controlled scheduler, preemption bounding, happens-before state caching)",
    design_ref="4/C17"),
+ "C18": dict(level="exploration", engine="E3 enum + E4 fakedb/vos",
+   text="Every small source database (<= 2/3 nodes, <= 2 relationships, ids with gaps stored out of order, kind sets, a 10-value property domain incl. 2^53+1, nested and unicode values, "
+        "two-graph databases with hostile names) x codec {none,gzip,zstd} x shard x dump batch x load batch is dumped by the real retriever over an in-memory graph.Database, checked by an "
+        "independent dump reader (file set, counts, bytes, SHA-256, records, schema, metrics, fingerprint), loaded into an empty fake and compared up to isomorphism under exact JSON equality; "
+        "Verify must succeed, and for every single edit of the loaded database Verify must fail exactly when an independent metrics implementation differs.",
+   note="Trusted: fakedb follows the graph.Database contract retriever uses (fails closed on anything else); independent reader/metrics in mc/rtk. 'Verify succeeds exactly when the graphs match' is decided relative to the metrics abstraction (property-value edits are invisible to Verify by design).",
+   technique="bounded exhaustive enumeration of databases x configurations with an independent dump reader and isomorphism oracle",
+   design_ref="4/C18"),
+ "C19": dict(level="fault_enumeration", engine="E4 vos + fakedb",
+   text="retriever's os calls are rewritten at build time onto a shim that numbers every file-system call (incl. File.Write/Close/Sync) in one sequence with the database calls. For each "
+        "scenario every call index of the traced Dump is hit with crash-before, crash-after, EIO, torn writes (0, n/2, n-1 bytes), short write+EIO and a dying Fetch; from every distinct "
+        "resulting directory state a clean resume, every 'must refuse' variant (changed options, changed source, stray files, damaged fragments) and again every call x mode of the resume "
+        "(depth 2) are run. Oracle: a manifest exists only for a complete dump; a checkpoint always parses and names intact fragments; committed fragments survive; a resume that returns nil "
+        "leaves exactly the uninterrupted dump; every variant fails.",
+   note="Crash model = the process dies (dead shim: later calls have no effect), not power loss / fsync reordering. Count-preserving source replacement is reported, not judged (the snapshot check is count based by design).",
+   technique="exhaustive crash/fault-point enumeration (depth 2) over intercepted file-system and database calls",
+   design_ref="4/C19"),
+ "C20": dict(level="fault_enumeration", engine="E4 vos + fakedb",
+   text="For a two-graph dump in every codec, its TAR and its encrypted archive: every byte x {^1,^0x80,0x00,0xFF} (all 255 values in thorough), every truncation length, appended garbage, "
+        "manifest field and structure edits, fragment edits, TAR entry and frame edits, ~90 hostile TAR entries (absolute, parent, volume, backslash, links, devices, GNU/PAX names, size tricks) "
+        "and wrong/malformed keys are fed to Load, UnpackTar, UnpackEncryptedCollectionArchive and Unpack. Oracle: an error implies an empty target mutation log and no partial output; the "
+        "sandbox outside the output directory is unchanged; success implies a result identical to the pristine run.",
+   note="Four known findings (partial output after a failed UnpackTar / UnpackEncryptedCollectionArchive, UnpackTar accepting a tampered fragment, Load(VerifyMetrics) failing only after writing) are listed in known_findings.json; any other failure has a different class. Time-of-check/time-of-use changes of the input are out of scope.",
+   technique="exhaustive single-fault mutation enumeration of dump inputs with mutation-log, confinement and integrity oracles",
+   design_ref="4/C20"),
 }
 
 NOT_YET = "checker not built yet in this session (planned, see DESIGN.md section 4); not claimed until it runs clean"
